@@ -15,10 +15,11 @@ def require_before(ctx, rule, must, ENTRY, target, required, only_bodies=None, t
     for site in ctx.sem_sites(target):
         if only_bodies is not None and site.body.path not in only_bodies:
             continue
-        S = must.at_site(ENTRY, site)
-        if S is None:
+        sets = ctx.must_before(must, ENTRY, site, target)
+        if sets is None:
             continue
-        names = sem_set(S)
+        per = [sem_set(S) for S in sets]
+        names = set.intersection(*per)
         n += 1
         for req in required:
             rule.check(req in names, "%s@%s%s" % (req, target, tag), site.body,
@@ -34,10 +35,12 @@ def require_not_before(ctx, rule, ENTRY_may, target, forbidden, tag=""):
     """At every site carrying `target`: none of `forbidden` may have happened earlier in the call."""
     n = 0
     for site in ctx.sem_sites(target):
-        S = ctx.may.before_site(ENTRY_may, site)
-        if S is None:
+        sets = ctx.may_before(ENTRY_may, site, target)
+        if sets is None:
             continue
-        names = sem_set(S)
+        names = set()
+        for S in sets:
+            names |= sem_set(S)
         n += 1
         for f in forbidden:
             rule.check(f not in names, "no-%s-before-%s%s" % (f, target, tag), site.body,
